@@ -164,7 +164,7 @@ fn run_case(ctx: &WorkerCtx, rep: &mut WorkerReport, net: &str, case_seed: u64, 
     let mut d = new_driver("C19");
     d.exec(Op::Init { hash: hist::ZERO_HASH.into(), ts: 1, height: 0 });
     let pk = "5120eeeeeeeeeeeeeeeeeeeeeeeeeeeeeeeeeeeeeeeeeeeeeeeeeeeeeeeeeeeeeeee".to_string();
-    let h1 = format!("0x{:064x}", 0xc19u64);
+    let h1 = crate::hist::bh((0xc19u64) as u64);
     let r = d.exec(Op::Deploy { pk: pk.clone(), data: hist::hx(&asm::tool_init()), enc: Enc::Hex, ctx: Ctx { ts: 2, hash: h1.clone(), idx: 0 }, iid: "c19-tool".into(), len: 100_000, txid: hist::ZERO_HASH.into() });
     let Some(tool) = hist::created_address(&r) else {
         rep.inconclusive("tool deployment failed");
